@@ -81,7 +81,11 @@ def explore(scenario, bound, on_exec=None, max_execs=None):
         ctx = Ctx(prefix, expect)
         outcome = scenario(ctx)
         stats["execs"] += 1
-        stats["outcomes"][outcome] = stats["outcomes"].get(outcome, 0) + 1
+        try:
+            key = outcome if outcome.__hash__ and hash(outcome) is not None else repr(outcome)
+        except TypeError:
+            key = repr(outcome)
+        stats["outcomes"][key] = stats["outcomes"].get(key, 0) + 1
         if len(ctx.points) > stats["max_points"]:
             stats["max_points"] = len(ctx.points)
         if on_exec is not None:
